@@ -154,7 +154,7 @@ def iterm2_unit(method, term, src, override=None, src_mode="RGB", alpha_kind="fl
                           z3.Not(a["irregular"]) if not (method != "lines" and not konsole) else z3.Or(z3.Not(a["irregular"]), z3.BoolVal(True) if final else z3.BoolVal(False)))
         st.ghost["vt"] = vt_new(r0, z3.IntVal(0), B0, TW, TH, line_pred=line_pred)
         IS = eng.genv["ImageSource"].d
-        animated = z3.Bool("is_animated") if method == "anim" else False
+        animated = z3.Bool("is_animated")       # (a still render of an animated image - one frame of it - takes every method too)
         effective = method if override is None else ("whole" if method == "lines" else "lines")
         self_ = st.new("ITerm2Image", {"_render_method": effective, "_TERM": term, "_source_type": IS["PIL_IMAGE"] if src.startswith("pil") else IS["FILE_PATH"],
                                        "_is_animated": animated, "_source": "SRC_PATH", "_original_size": (ow, oh)})
@@ -210,7 +210,7 @@ def iterm2_unit(method, term, src, override=None, src_mode="RGB", alpha_kind="fl
             s.ghost["strip_images"] = s.ghost.get("strip_images", []) + [im]
             return [(im, s)]
         eng.genv["PIL"] = Namespace("PIL", {"Image": Namespace("Image", {"frombytes": Fn(frombytes)})})
-        if method == "lines":
+        if True:        # (the per-line loop has its invariant whatever method is asked for: a request that falls into it is then decided, not out of reach)
             def inv(s, i, N):
                 g = s.ghost["vt"]
                 cimg = s.lookup("compressed_image")
@@ -240,7 +240,7 @@ def iterm2_unit(method, term, src, override=None, src_mode="RGB", alpha_kind="fl
                 s.env["img"] = s.new("PIL.Image", {"mode": out_mode, "role": "strip-prev", "open": False})
             eng.invariants = {1: LoopSpec(inv, havoc)}
         mix = z3.Bool("mix")
-        st.env.update(self=self_, img=img0, alpha=Opaque("alpha"), frame=(False if method == "anim" else z3.Bool("frame")), method=override, mix=mix, compress=z3.Int("compress"))
+        st.env.update(self=self_, img=img0, alpha=Opaque("alpha"), frame=z3.Bool("frame"), method=override, mix=mix, compress=z3.Int("compress"))
         # `alpha` only matters in the read-from-file gate (isinstance(alpha, float)) and img.mode membership tests
         st.env["alpha"] = {"float": z3.Real("alpha_threshold"), "hex": "#a1b2c3", "#": "#", "None": None}[alpha_kind]
         outs = run_function(eng, ctx.fn(ITERM, "ITerm2Image._render_image"), st)
@@ -300,7 +300,15 @@ def iterm2_unit(method, term, src, override=None, src_mode="RGB", alpha_kind="fl
                 ok = len(cmds) == 1 and And(Eq(cmds[0]["width"], rw), Eq(cmds[0]["height"], rh))
                 eng.oblige("one-image-command-covering-exactly-the-rectangle", s2,
                            And(ok, g.get("img") is not None and And(to_z3(g["img"][0]) == r0, to_z3(g["img"][1]) == r0 + rh, to_z3(g["img"][2]) == 0, to_z3(g["img"][3]) == rw)),
-                           kind="post")
+                           kind="post",
+                           # a native-animation request served by another layout than one command (per-line strips) is C11's
+                           # business; for the rectangle clause of C01 it counts only if a replay shows cells uncovered
+                           **({"over_approx": "layout other than one image command: the rectangle clause is decided by the replay"} if method == "anim" and len(cmds) != 1 else {}))
+                if method == "anim":
+                    # C11: a native-animation request that cannot be served natively (a frame of an iteration / animated draw, a
+                    # still image) falls back to ONE whole-image command per frame, never to per-line strips
+                    eng.oblige("C11:native-animation-request-falls-back-to-a-whole-image-frame(one-command)", s2, And(ok), prop="C11", kind="post",
+                               replay="C11.anim_fallback")
                 if cmds:
                     eng.oblige("C03:konsole-gets-doNotMoveCursor,others-do-not", s2, (cmds[0]["keys"].get("doNotMoveCursor") == 1) == konsole, prop="C03", kind="post")
         return eng.obligations
